@@ -112,7 +112,7 @@ def plans(draw):
         elif k == "phase":
             steps.append({"op": "gen", "emit": draw(st.sampled_from(("sqlalchemy", "sqlalchemy_table", "sqlalchemy_hybrid"))),
                           "parse": "infer", "tpl": "{name}Gen", "infer_imports": False, "prepend": False,
-                          "imports_from_file": False, "no_word_wrap": False, "phase": draw(st.sampled_from((1, 2))),
+                          "imports_from_file": False, "no_word_wrap": False, "phase": draw(st.sampled_from((1, 2, 3))),
                           "fault": None})
         elif k == "phase_any":
             # --phase N with an emit kind that has no phases: must not switch the non-clobbering guard off
@@ -448,6 +448,14 @@ def simulate(plan):
                                   "sig": {"what": "overwrote_or_accepted_existing", "returned": o.ok,
                                           "changed": "out.py" in modified + deleted,
                                           "phase_given": bool(stp.get("phase"))}})
+            if existed and o.kind == "raised" and not o.fired and ("out.py" in modified + deleted):
+                # whatever the phase: a gen that fails by itself must not have destroyed or altered the existing output
+                viols.append({"clause": "I6", "detail": "gen raised %s by itself and the existing output was %s" % (
+                    o.exc_type, "deleted" if "out.py" in deleted else "modified"),
+                    "sig": {"what": "existing_output_damaged_by_failed_gen", "deleted": "out.py" in deleted,
+                            "phase_given": bool(stp.get("phase"))}})
+            if existed and not stp.get("phase") or existed and not sa_emit:
+                pass
             elif o.ok and not o.fired and not stp.get("phase"):
                 text = world.read("out.py")
                 if text is None:
